@@ -13,7 +13,7 @@ import os
 import random
 
 import vlib
-from checks import brokerlib
+from checks import brokerlib, racelib
 from checks import c01
 
 GEN = 'CONSTANTS RTopics <- GTopics Payloads = {"p1", "p2"} Depth = %d\nSPECIFICATION GSpec\nCONSTRAINT Dump\nCHECK_DEADLOCK FALSE\n'
@@ -46,6 +46,16 @@ def classify(scn, line):
             tags.append("match-differs" + ("-empty-level" if "" in e["f"] or any("" in t for t in ret) else ""))
         return e.get("node", "?") + ":" + "+".join(tags)
     return "other"
+
+
+def _pubs(scn):
+    out = []
+    for o in scn["ops"]:
+        if o["op"] == "pub":
+            out.append(o)
+        elif o["op"] == "race":
+            out += [x for x in [o["a"]] + o["b"] if x["op"] == "pub"]
+    return [o for o in out if o.get("p") in ("new", "newer")]
 
 
 def check(run):
@@ -128,9 +138,16 @@ def check(run):
     validated += bvalidated
     tstates += btstates
     rejected = rejected + brejected
+    # ---- overlapping operations (retained publishes overlapping subscriptions): one operation parked at a gate inside its handler, others completed meanwhile
+    rn, rparked, rnev, rval, rrej, rts = racelib.check_family(run, "C07", v, keep=lambda s: any(o.get('r') for o in _pubs(s)))
+    validated += rval
+    tstates += rts
     rc = v.finish()
     vlib.write_evidence(run, {
         "broker_level_scenarios": len(bscns), "broker_level_events": bnev,
+        "overlapping_operations": {"interleavings": rn, "parked_at_their_gate": rparked, "events": rnev, "rejections": rrej,
+                                   "rule": "one client operation (SUBSCRIBE / UNSUBSCRIBE / PUBLISH) is parked at a scheduler gate at a replicated-state call "
+                                           "inside its handler while others run to completion; RaceTrace.tla requires what holds under every interleaving"},
         "traces_validated_against_impl": validated,
         "evaluations": nev,
         "distinct_nontrivial": len(scns),
@@ -152,6 +169,8 @@ def replay(run, path):
     rp = json.load(open(path))
     if rp.get("kind") == "broker":
         return brokerlib.replay(run, "C07", path)
+    if rp.get("kind") == "race":
+        return racelib.replay(run, "C07", path)
     spath = os.path.join(run.scratch, "scenarios.ndjson")
     with open(spath, "w") as f:
         f.write(json.dumps(rp["scenario"]) + "\n")
